@@ -21,8 +21,10 @@ func (verifQ7Clock) Now() time.Time { return time.Unix(1000, 0) }
 func (verifQ7Clock) NewContextWithTimeout(parent context.Context, timeout time.Duration) (context.Context, context.CancelFunc) {
 	panic("not expected")
 }
-func (verifQ7Clock) NewTimer(d time.Duration) (clock.Timer, <-chan time.Time)   { panic("not expected") }
-func (verifQ7Clock) NewTicker(d time.Duration) (clock.Ticker, <-chan time.Time) { panic("not expected") }
+func (verifQ7Clock) NewTimer(d time.Duration) (clock.Timer, <-chan time.Time) { panic("not expected") }
+func (verifQ7Clock) NewTicker(d time.Duration) (clock.Ticker, <-chan time.Time) {
+	panic("not expected")
+}
 
 type verifQ7ReaderAt struct {
 	data   []byte
